@@ -270,6 +270,29 @@ func judge(sc *protoScenario, data []byte, baseline []byte, o *protoOutcome, str
 	if failureExpected && o.apiErr == nil && !o.stuck {
 		add("task-failure-not-reported", "a task failed (%s) but every API call returned nil/EOF", describeFailure(sc))
 	}
+	// "when any task fails, all others stop promptly": once the failing task has left (its Exit event), no other task may still
+	// take the shared stream. Exact under the controlled scheduler only (one task runs at a time, so a task released after that
+	// Exit must see the cancel request); in free-running mode a waiter may have read the counter just before.
+	if strict && !o.stuck {
+		failing := int32(0)
+		switch {
+		case sc.Fault.Nth > 0 && o.fired:
+			failing = sc.Fault.ID
+		case sc.Side == "dec" && sc.Damage > 0 && failureExpected && sc.Blocks <= sc.Tasks:
+			failing = int32(sc.Damage) // single batch: task id == block number
+		}
+		if failing > 0 {
+			gone := false
+			for _, e := range o.events {
+				if e.ID == failing && e.Step == kio.VerifExit {
+					gone = true
+				} else if gone && e.ID != failing && e.Step == kio.VerifAcquired {
+					add("acquire-after-failure", "task %d took the shared stream after task %d had failed and exited (%s): the others did not stop", e.ID, failing, describeFailure(sc))
+					break
+				}
+			}
+		}
+	}
 	if o.notEnclosing != "" && !o.stuck && o.panicked == nil {
 		add("task-failure-not-reported-by-enclosing-call", "a task failed (%s) while %s was running its batch, but %s returned nil (first error seen later: %v)", describeFailure(sc), o.notEnclosing, o.notEnclosing, o.apiErr)
 	}
